@@ -10,4 +10,11 @@ NOT_UNDER_CONTRACT = []
 
 
 def units(tier):
-    return history.units()
+    from contracts import useractions
+    from ._common import UA_ALL
+    return history.units() + history.tracks_units() + useractions.units(UA_ALL)
+
+
+def witness(label, failure, seed):
+    from pyvc.native_bridge import tracks_witness
+    return tracks_witness("C02", label, failure, seed)
